@@ -205,7 +205,11 @@ def harvest_assumptions(ctx, prop_file):
     printed = re.findall(r'Print Assumptions\s+(\w+)', src)
     tmp = ctx.scratch / ('PA_' + Path(prop_file).name)
     tmp.write_text(src)
-    rc, out = coqc_file(tmp)
+    lock = _coq_lock()          # no make may rewrite the .vo files this compile reads
+    try:
+        rc, out = coqc_file(tmp)
+    finally:
+        lock.close()
     ctx.coverage['obligations'] += len(theorems)
     if rc != 0:
         ctx.broken_tie(prop_file, out)
